@@ -12,7 +12,7 @@ use crate::cols::*;
 use crate::look::*;
 use crate::sys::*;
 use crate::world::*;
-use crate::{ensure, vio};
+use crate::{ensure, ensure_soft, vio};
 
 const FREE_BIT: u32 = 1 << 31;
 const FREE_END: u32 = u32::MAX;
@@ -100,38 +100,38 @@ impl Sys {
         for a in 0..NARCH {
             let d = self.dump_of(w, a);
             let name = ARCH_NAMES[a];
-            ensure!(d.len <= d.capacity && d.slots.len() == d.capacity && d.entities.len() == d.len, "C12", "repr:len-capacity", "{}: len {} capacity {} slots {} entities {}", name, d.len, d.capacity, d.slots.len(), d.entities.len());
+            ensure_soft!(self.sc, d.len <= d.capacity && d.slots.len() == d.capacity && d.entities.len() == d.len, "C12", "repr:len-capacity", "{}: len {} capacity {} slots {} entities {}", name, d.len, d.capacity, d.slots.len(), d.entities.len());
             let m = &self.models[w];
             let mut dense: BTreeSet<Bits> = BTreeSet::new();
             for (j, (key, gen)) in d.entities.iter().enumerate() {
                 let pos = (key >> 8) as usize;
-                ensure!((key & 0xff) as u8 == arch_id(a), "C01", "repr:dense-archetype-byte", "{}: dense entry {} carries archetype byte {}", name, j, key & 0xff);
-                ensure!(pos < d.capacity, "C01", "repr:dense-slot-out-of-range", "{}: dense entry {} points to slot {} >= capacity {}", name, j, pos, d.capacity);
+                ensure_soft!(self.sc, (key & 0xff) as u8 == arch_id(a), "C01", "repr:dense-archetype-byte", "{}: dense entry {} carries archetype byte {}", name, j, key & 0xff);
+                ensure_soft!(self.sc, pos < d.capacity, "C01", "repr:dense-slot-out-of-range", "{}: dense entry {} points to slot {} >= capacity {}", name, j, pos, d.capacity);
                 let (word, sg) = d.slots[pos];
-                ensure!(word & FREE_BIT == 0, "C01", "repr:live-slot-flagged-free", "{}: slot {} of live dense entry {} is flagged free", name, pos, j);
-                ensure!(word as usize == j, "C01", "repr:slot-dense-mismatch", "{}: slot {} points to dense {} but dense entry {} points back to it", name, pos, word, j);
-                ensure!(sg == *gen, "C01", "repr:generation-mismatch", "{}: slot {} has generation {} but its dense entry has {}", name, pos, sg, gen);
-                ensure!(dense.insert((*key, *gen)), "C01", "repr:duplicate-dense-entry", "{}: handle {:?} appears twice in the dense array", name, (key, gen));
+                ensure_soft!(self.sc, word & FREE_BIT == 0, "C01", "repr:live-slot-flagged-free", "{}: slot {} of live dense entry {} is flagged free", name, pos, j);
+                ensure_soft!(self.sc, word as usize == j, "C01", "repr:slot-dense-mismatch", "{}: slot {} points to dense {} but dense entry {} points back to it", name, pos, word, j);
+                ensure_soft!(self.sc, sg == *gen, "C01", "repr:generation-mismatch", "{}: slot {} has generation {} but its dense entry has {}", name, pos, sg, gen);
+                ensure_soft!(self.sc, dense.insert((*key, *gen)), "C01", "repr:duplicate-dense-entry", "{}: handle {:?} appears twice in the dense array", name, (key, gen));
             }
             let nonfree = d.slots.iter().filter(|s| s.0 & FREE_BIT == 0).count();
-            ensure!(nonfree == d.len, "C01", "repr:non-free-slot-count", "{}: {} slots are not flagged free but len is {}", name, nonfree, d.len);
+            ensure_soft!(self.sc, nonfree == d.len, "C01", "repr:non-free-slot-count", "{}: {} slots are not flagged free but len is {}", name, nonfree, d.len);
             let model_set: BTreeSet<Bits> = m.order[a].iter().cloned().collect();
-            ensure!(dense == model_set, "C01", "repr:dense-set-differs-from-model", "{}: stored handles {:?} != live handles of the model {:?}", name, dense, model_set);
+            ensure_soft!(self.sc, dense == model_set, "C01", "repr:dense-set-differs-from-model", "{}: stored handles {:?} != live handles of the model {:?}", name, dense, model_set);
             // free list: exactly capacity-len positions, each once, all flagged free, properly terminated
             let mut seen = BTreeSet::new();
             let mut cur = d.free_head;
             loop {
-                ensure!(cur & FREE_BIT != 0, "C12", "repr:free-list-link-not-free", "{}: free list link {:#x} lacks the free flag", name, cur);
+                ensure_soft!(self.sc, cur & FREE_BIT != 0, "C12", "repr:free-list-link-not-free", "{}: free list link {:#x} lacks the free flag", name, cur);
                 if cur == FREE_END {
                     break;
                 }
                 let pos = (cur & !FREE_BIT) as usize;
-                ensure!(pos < d.capacity, "C12", "repr:free-list-out-of-range", "{}: free list reaches position {} >= capacity {}", name, pos, d.capacity);
-                ensure!(seen.insert(pos), "C12", "repr:free-list-cycle", "{}: free list visits position {} twice", name, pos);
-                ensure!(d.slots[pos].0 & FREE_BIT != 0, "C12", "repr:free-list-contains-live-slot", "{}: free list contains live slot {}", name, pos);
+                ensure_soft!(self.sc, pos < d.capacity, "C12", "repr:free-list-out-of-range", "{}: free list reaches position {} >= capacity {}", name, pos, d.capacity);
+                ensure_soft!(self.sc, seen.insert(pos), "C12", "repr:free-list-cycle", "{}: free list visits position {} twice", name, pos);
+                ensure_soft!(self.sc, d.slots[pos].0 & FREE_BIT != 0, "C12", "repr:free-list-contains-live-slot", "{}: free list contains live slot {}", name, pos);
                 cur = d.slots[pos].0;
             }
-            ensure!(seen.len() == d.capacity - d.len, "C12", "repr:free-list-length", "{}: free list has {} positions, capacity-len is {}", name, seen.len(), d.capacity - d.len);
+            ensure_soft!(self.sc, seen.len() == d.capacity - d.len, "C12", "repr:free-list-length", "{}: free list has {} positions, capacity-len is {}", name, seen.len(), d.capacity - d.len);
         }
         Ok(())
     }
